@@ -9,7 +9,8 @@ use crate::debugger::debugee::dwarf::{EndianArcSlice, NamespaceHierarchy};
 use crate::debugger::error::Error;
 use crate::debugger::rust::Environment;
 use gimli::{
-    AttributeValue, DW_AT_decl_file, DW_AT_decl_line, DW_AT_language, DW_AT_linkage_name,
+    AttributeValue, DW_AT_abstract_origin, DW_AT_decl_file, DW_AT_decl_line, DW_AT_language,
+    DW_AT_linkage_name,
     DW_AT_name, DW_AT_producer, DW_AT_specification, DebuggingInformationEntry, DwAt, Range,
     Reader, UnitHeader, UnitOffset,
 };
@@ -193,7 +194,12 @@ impl<'a> DwarfUnitParser<'a> {
                             })
                         });
 
-                        let specification = die.attr(DW_AT_specification).and_then(|attr| {
+                        // a concrete out-of-line instance of an inlined function refers to its
+                        // name and declaration coordinates through DW_AT_abstract_origin
+                        let specification = die
+                            .attr(DW_AT_specification)
+                            .or_else(|| die.attr(DW_AT_abstract_origin))
+                            .and_then(|attr| {
                             if let AttributeValue::UnitRef(r) = attr.value() {
                                 return Some(r);
                             }
